@@ -18,6 +18,9 @@ and the controller call it made, if any).
 `seek(n, 2)` is modelled as the code computes it (`len - n`, pinned by the
 repository's `test_seek_from_end`); the bounded-file specification below says
 `len + n` (finding `seek-from-end-sign`).
+`__getitem__` is modelled WITH fixes/c13-getitem-closed.diff (`@_if_not_closed`: slicing a
+closed view or a view of a freed allocation raises OSError); the unguarded code is kept as
+`doSliceOrig` for the witness.
 -/
 import RigModel.Model.Proto
 
@@ -182,7 +185,7 @@ def doSeek (w : World) (i : Nat) (v : View) (n whence : Int) : World × Out :=
   else if whence = 2 then done (setView w i { v with offset := (v.stop - v.start) - n }) .none
   else fail w .valueError
 
-/-- `__getitem__` (not guarded by `_if_not_closed`; pure address arithmetic) -/
+/-- `__getitem__`: pure address arithmetic -/
 def sliceBounds (v : View) (a b : Option Int) : Int × Int :=
   let s := match a with
     | none => v.start
@@ -192,11 +195,17 @@ def sliceBounds (v : View) (a b : Option Int) : Int × Int :=
     | some b => if b < 0 then max s (v.stop + b) else min v.stop (v.start + b)
   (s, e)
 
-def doSlice (w : World) (v : View) (a b step : Option Int) : World × Out :=
+/-- `__getitem__` BEFORE fixes/c13-getitem-closed.diff: not guarded by `_if_not_closed`
+(kept for the witness `orig_slice_of_closed_view_is_open`) -/
+def doSliceOrig (w : World) (v : View) (a b step : Option Int) : World × Out :=
   if step = none ∨ step = some 1 then
     let (s, e) := sliceBounds v a b
     ({ w with views := w.views ++ [mkView s e] }, ⟨.view w.views.length, false, none⟩)
   else fail w .valueError
+
+/-- `__getitem__` with `@_if_not_closed` (fixes/c13-getitem-closed.diff) -/
+def doSlice (w : World) (v : View) (a b step : Option Int) : World × Out :=
+  if dead w v then fail w .osError else doSliceOrig w v a b step
 
 /-- `close`: `if not self.closed: self.flush(); self.closed = True` -/
 def doClose (w : World) (i : Nat) (v : View) : World × Out :=
@@ -215,7 +224,7 @@ def stepView (w : World) (v : View) : Op → World × Out
   | .read i n => doRead w i v n
   | .write i d => doWrite w i v d
   | .slice _ a b s => doSlice w v a b s
-  | .index _ => fail w .valueError
+  | .index _ => if dead w v then fail w .osError else fail w .valueError   -- `__getitem__`, non-slice key
   | .tell _ => if dead w v then fail w .osError else done w (.int v.offset)
   | .address _ => if dead w v then fail w .osError else done w (.int v.address)
   | .len _ => done w (.int v.len)
@@ -304,10 +313,16 @@ def Confined (x y : Nat) (v : View) : Access → Prop
 instance (x y : Nat) (v : View) (a : Access) : Decidable (Confined x y v a) := by
   cases a <;> unfold Confined <;> exact inferInstance
 
-/-- operations that must fail on a closed view / freed allocation -/
+/-- the file operations (those `specIO` describes) -/
 def Op.isIO : Op → Bool
   | .seek .. | .read .. | .write .. | .tell _ | .address _ | .flush _ => true
   | _ => false
+
+/-- operations that must fail on a closed view / freed allocation: the file operations and
+slicing (`__len__` and a repeated `close()` are not in the property's list of operations) -/
+def Op.mustFail : Op → Bool
+  | .slice .. | .index _ => true
+  | op => op.isIO
 
 /-- What the bounded-file specification says one call on a live view does:
 return value, warning, the view afterwards, the bytes of the view afterwards,
@@ -448,7 +463,13 @@ def checkObs (o : Obs) : List String :=
     else
       match o.op with
       | .slice _ a b st =>
-        if st = none ∨ st = some 1 then
+        if isDead then
+          -- 2'. slicing a closed view / freed allocation fails (any exception) and creates nothing
+          (match o.out.ret with
+           | .err _ => if o.newView = none ∧ o.post = v ∧ o.after = o.before ∧ o.out.access = none
+                       then [] else ["dead-sliced"]
+           | _ => ["dead-sliced"])
+        else if st = none ∨ st = some 1 then
           -- 4. a slice covers exactly the clipped sub-range it names
           (match o.newView with
            | some nv => if nv = specSlice v a b then [] else ["slice-range"]
